@@ -213,3 +213,76 @@ def run_kernel(spec: dict) -> dict:
     nxt = libc().rand()
     return {"ok": True, "rows": pack_rows(mask), "next": int(nxt), "values": sorted(set(int(v) for v in np.unique(mask))),
             "kernel": boot.ext_info.get("direct.common._poisson", "?")}
+
+
+def run_gen(spec: dict) -> dict:
+    """worker entry point: ONE real `VariableDensityPoisson` generator call (spec as in maskgen_common.run_spec) with
+    every `_poisson` kernel call recorded; per frame the arguments of the LAST kernel call (the one whose mask is
+    returned) are kept: {"nx","ny","ma","seed","rx","ry" (flat dy ints),"rows","next"}.  Also "crop": packed rows of
+    `r < 1` recomputed with the expressions of `poisson` (float glue)."""
+    import boot  # noqa: F401
+    import numpy as np
+    import torch
+
+    from props import maskgen_common as G
+
+    S = G._S()
+    out: dict = {"ok": False}
+    rng = None
+    frames: list[dict] = []
+    calls = {"n": 0}
+    real = S._poisson
+
+    def rec(nx, ny, ma, mask, rx, ry, seed):
+        real(nx, ny, ma, mask, rx, ry, seed)
+        nxt = int(libc().rand())
+        calls["n"] += 1
+        frames[-1].update({"nx": int(nx), "ny": int(ny), "ma": int(ma), "seed": int(seed), "rx": flat_dy(np.asarray(rx)),
+                           "ry": flat_dy(np.asarray(ry)), "rows": pack_rows(np.asarray(mask)), "next": nxt,
+                           "ncalls": frames[-1].get("ncalls", 0) + 1})
+
+    try:
+        f = G.make(spec["gen"], spec["mode"], spec["acc"], spec.get("cf"), via_build=bool(spec.get("via_build")),
+                   **spec.get("extra", {}))
+        rng = G._recording_rng()
+        f.rng = rng
+        orig_poisson = f.poisson
+
+        def per_frame(*a, **k):
+            frames.append({})
+            return orig_poisson(*a, **k)
+
+        f.poisson = per_frame
+        S._poisson = rec
+        seed = spec.get("seed")
+        if isinstance(seed, list):
+            seed = tuple(seed)
+        kw = {}
+        if seed is not None:
+            kw["seed"] = seed
+        if spec.get("return_acs"):
+            kw["return_acs"] = True
+        shape = tuple(spec["shape"])
+        m = f(shape, **kw)
+        cols = shape[-2] if len(shape) >= 2 else 1
+        out = {"ok": True, "shape": list(m.shape), "dtype": str(m.dtype) if isinstance(m, torch.Tensor) else str(type(m)),
+               "cols": cols, "rows": G.pack_rows(m.numpy() if isinstance(m, torch.Tensor) else np.asarray(m), cols)
+               if m.numel() % max(cols, 1) == 0 else None}
+        if len(shape) >= 3 and getattr(f, "crop_corner", False):
+            nr, nc = shape[-3], shape[-2]
+            x, y = np.mgrid[:nr, :nc]
+            x = np.maximum(abs(x - nr / 2), 0)
+            x /= x.max()
+            y = np.maximum(abs(y - nc / 2), 0)
+            y /= y.max()
+            out["crop"] = pack_rows((np.sqrt(x ** 2 + y ** 2) < 1).astype(int))
+    except BaseException as e:  # noqa: BLE001 - canonicalised
+        if isinstance(e, (KeyboardInterrupt, SystemExit)):
+            raise
+        out = {"ok": False, "err": type(e).__name__, "msg": str(e)[:200]}
+    finally:
+        S._poisson = real
+    out["draws"] = rng.log if rng is not None else []
+    out["frames"] = frames
+    out["kernel_calls"] = calls["n"]
+    return out
